@@ -34,6 +34,7 @@ func ZZVerifC12DoneParent() { zzSignal(nd.Param("DP", 2), nd.Param("DG", 1), 2, 
 
 func zzSignal(pBound, g, firstKind, nKinds int) {
 	nd.Schedule(pBound)
+	nd.Races()
 	var s app.ContextScope
 	// 0 plain; isolated scope of a parent that is 1 live, 2 stopped before,
 	// 3 killed before, 4 stopped concurrently
